@@ -297,3 +297,188 @@ _sc = REGISTRY[ECDSA + "Private_key.sign"]
 _sc.check_concrete = _sign_check.__get__(_sc)
 _sc.positional = _sign_positional.__get__(_sc)
 _sc.domain = _sign_domain
+
+
+# ---- C14: public-key recovery ------------------------------------------------------------------------------------------
+import z3
+from pyvc.sym import SInt, SBool, T, eq, And_
+from contracts import ellipticcurve as ECM
+from contracts import numbertheory as NTC
+
+
+def _scalar_ctor(ex, F, vals, line):
+    """PointJacobi(curve, x, y, 1, n) in scalar mode: the nonce point of a genuine signature has x-coordinate r, so the
+    point built from (r, root) is +-kG; a second point with the same x and the negated y is its negation"""
+    obj = vals["self"]
+    x, y = vals["x"], vals["y"]
+    W = F.world
+    tab = getattr(F, "coord_points", [])
+    F.coord_points = tab
+    yt = y.t if hasattr(y, "t") else z3.IntVal(y)
+    # stored coordinates must be reduced: 0 <= y < p
+    fp = W["curve"].fields["_CurveFp__p"]
+    ex.oblige("%s#call(PointJacobi.__init__)#requires-reduced-coordinates" % ex.cur_func, And_(SInt(yt) >= 0, SInt(yt) < fp), "call-requires", line)
+    scalar = None
+
+    def core(t):
+        # y, -y, (-y) % p  ->  (sign, y)
+        if z3.is_app(t) and t.decl().name() == "imod" and t.arg(1).eq(fp.t):
+            return core(t.arg(0))
+        u = z3.simplify(-t)
+        if z3.is_app(t) and t.decl().kind() == z3.Z3_OP_UMINUS:
+            return (-1, t.arg(0))
+        if z3.is_app(t) and t.decl().kind() == z3.Z3_OP_MUL and t.num_args() == 2 and z3.is_int_value(t.arg(0)) and t.arg(0).as_long() == -1:
+            return (-1, t.arg(1))
+        return (1, t)
+    for (x0, y0, s0) in tab:
+        if x0 is x:
+            sg, yy = core(yt)
+            sg0, yy0 = core(y0)
+            if yy.eq(yy0):
+                scalar = s0 if sg == sg0 else -s0
+    if scalar is None:
+        k = W.get("nonce")
+        if k is None:
+            raise EngineLimit("PointJacobi constructed from coordinates in scalar mode without a known nonce point")
+        scalar = k.res if ex.choose(2) == 0 else -k.res
+        tab.append((x, yt, scalar))
+    obj.fields.update({"_PointJacobi__curve": vals["curve"], "_PointJacobi__order": vals.get("order"), "_PointJacobi__generator": False})
+    obj.ghost["scalar"] = sp.sympify(scalar)
+    return None
+
+
+_orig_init_apply = REGISTRY[ECM.EC_MOD + "PointJacobi.__init__"].apply_fn
+
+
+def _init_dispatch(ex, F, vals, line):
+    if getattr(F, "world", None) is not None and not isinstance(vals.get("y"), FInt):
+        return _scalar_ctor(ex, F, vals, line)
+    return _orig_init_apply(ex, F, vals, line)
+
+
+REGISTRY[ECM.EC_MOD + "PointJacobi.__init__"].apply_fn = _init_dispatch
+
+
+def _pubkey_init_apply(ex, F, vals, line):
+    """Public_key(generator, point): in scalar mode the point is a multiple of G, hence valid; the constructor needs a finite point"""
+    pt = vals["point"]
+    ex.oblige_decided("%s#call(Public_key.__init__)#requires-point-is-not-infinity" % ex.cur_func, pt is not infinity(ex), "sympy",
+                      "Public_key(generator, INFINITY) dereferences INFINITY.x() == None", line, kind="call-requires")
+    if pt is infinity(ex):
+        from pyvc.interp import PyRaise
+        raise PyRaise("TypeError", (), line)
+    g = vals["generator"]
+    vals["self"].fields.update({"curve": g.fields["_PointJacobi__curve"], "generator": g, "point": pt})
+    return None
+
+
+_pki = MethodContract(ECDSA + "Public_key.__init__", [], None, _pubkey_init_apply, props=("C08", "C14"))
+_pki.applied_only = True
+REGISTRY[_pki.qual] = _pki
+
+
+def _rec_setup(ex, F):
+    W = mk_world(ex, F)
+    k = F.atom("k", "coord")
+    F.assume_nonzero(k.res)
+    k.iv = (lin(0, 1), lin(1, -1))
+    W["nonce"] = k
+    e = F.atom("e", "free")
+    rx = xcoord_atom(ex, F, k.res)
+    # the hypothesis of C14: the nonce point has x-coordinate below n, so r = x(kG) itself (not merely its residue)
+    r = rx
+    F.ranges[rx.res] = (lin(0, 1), lin(1, -1))
+    F.assume_nonzero(rx.res)
+    s_val = (e.res + rx.res * W["d"].res) / k.res
+    F.assume_nonzero(s_val)
+    s = FInt(F, s_val, (lin(0, 1), lin(1, -1)))
+    sig = SObj(ex.convert(real_ecdsa().Signature), {"r": r, "s": s})
+    # x^3 + a x + b is a square: (r, .) is the x-coordinate of the curve point kG
+    cv = W["curve"]
+    fp, a, b = cv.fields["_CurveFp__p"], cv.fields["_CurveFp__a"], cv.fields["_CurveFp__b"]
+    ex.assume(fp >= 5)
+    ex.pc.append(NTC.PRIME(fp.t))
+    ex.extra_axioms = list(NTC.nt_axioms()) + [z3.ForAll([z3.Int("al")], NTC.QR(z3.Int("al"), fp.t), patterns=[NTC.QR(z3.Int("al"), fp.t)])]
+    return {"self": sig, "hash": e, "generator": W["G"], "_k": k, "_e": e}
+
+
+def _rec_post(ex, F, env, out, snap):
+    W = F.world
+    if out[0] == "exc":
+        yield "no-escape", False, "raised %s at line %s" % (out[1], out[2])
+        return
+    lst = out[1]
+    ok = isinstance(lst, list) and all(isinstance(pk, SObj) and pk.cls.qual.endswith("Public_key") for pk in lst)
+    yield "returns-list-of-public-keys", ok, "returned %r" % (lst,)
+    if not ok:
+        return
+    yield "at-most-two", len(lst) <= 2, "%d keys" % len(lst)
+    scal = [pk.fields["point"].ghost.get("scalar") if is_abstract(pk.fields["point"]) else None for pk in lst]
+    yield "contains-the-signers-key", any(s_ is not None and F.equal(s_, W["d"].res) for s_ in scal), "candidate scalars %s" % (scal,)
+    sig = env["self"]
+    allv = True
+    for pk, s_ in zip(lst, scal):
+        if s_ is None:
+            allv = False
+            continue
+        pub = SObj(ex.convert(real_ecdsa().Public_key), {"curve": W["curve"], "generator": W["G"], "point": pk.fields["point"]})
+        if _ver_expected(ex, F, pub, env["_e"], sig.fields["r"], sig.fields["s"]) is not True:
+            allv = False
+    yield "every-returned-key-verifies", allv, "a returned key does not verify the signature"
+
+
+emethod("Signature", "recover_public_keys", [("genuine-signature", _rec_setup)], _rec_post, None, props=("C14",))
+
+
+def _rec_check(self, args, fn=None):
+    c, d, e, k = args["curve"], args["d"], args["e"], args["k"]
+    p, a, b, G, n = c
+    R = EC.mul(k, G, p, a)
+    if R is EC.O or R[0] >= n or R[0] == 0:
+        return None
+    r = R[0]
+    s = pow(k, -1, n) * (e + r * d) % n
+    if s == 0:
+        return None
+    ns = {"ecdsa": __import__("ecdsa")}
+    import ecdsa.ecdsa as em
+    gen = eval(_gen_expr(p, a, b, G, n), ns)
+    Q = EC.mul(d, G, p, a)
+    try:
+        keys = em.Signature(r, s).recover_public_keys(e, gen)
+    except Exception as ex_:
+        return [dict(obligation="%s#no-escape" % self.short, observed="raised %s: %s" % (type(ex_).__name__, ex_))]
+    v = []
+    if len(keys) > 2:
+        v.append(dict(obligation="%s#at-most-two" % self.short, observed="%d keys" % len(keys)))
+    pts = [(pk.point.x(), pk.point.y()) for pk in keys]
+    if Q not in pts:
+        v.append(dict(obligation="%s#contains-the-signers-key" % self.short, observed="recovered %r, signer %r" % (pts, Q)))
+    for pk in keys:
+        if not pk.verifies(e, em.Signature(r, s)):
+            v.append(dict(obligation="%s#every-returned-key-verifies" % self.short, observed="key %r does not verify" % ((pk.point.x(), pk.point.y()),)))
+    return v
+
+
+def _rec_positional(self, args):
+    c, d, e, k = args["curve"], args["d"], args["e"], args["k"]
+    p, a, b, G, n = c
+    R = EC.mul(k, G, p, a)
+    r = R[0]
+    s = pow(k, -1, n) * (e + r * d) % n
+    return [Recipe("ecdsa.ecdsa.Signature(%d, %d)" % (r, s)), e, Recipe(_gen_expr(p, a, b, G, n))]
+
+
+def _rec_domain(tier, seed):
+    for c in prime_order_toys(13 if tier == "quick" else 23):
+        p, a, b, G, n = c
+        for d in range(1, n):
+            for k in range(1, n):
+                for e in range(0, n + 2):
+                    yield dict(curve=c, d=d, e=e, k=k)
+
+
+_rc = REGISTRY[ECDSA + "Signature.recover_public_keys"]
+_rc.check_concrete = _rec_check.__get__(_rc)
+_rc.positional = _rec_positional.__get__(_rc)
+_rc.domain = _rec_domain
